@@ -7,15 +7,19 @@ package props
 
 import (
 	"bytes"
+	"context"
 	"encoding/json"
 	"expvar"
 	"fmt"
+	"io"
+	"net/http/httptest"
 	"net/url"
 	"sort"
 	"strings"
 	"testing/synctest"
 	"time"
 
+	"github.com/rqlite/rqlite/v10/command/proto"
 	"verifsim/node"
 	"verifsim/sim"
 )
@@ -38,7 +42,26 @@ type hxBody struct {
 }
 
 func hxDo(n *node.Node, method, target, ctype string, body []byte, user, pass string) *hxResp {
-	w := n.HTTPDo(method, target, ctype, body, user, pass)
+	// Same as node.HTTPDo, except that a node whose HTTP service has already been
+	// torn down (the scenario ended while this task was about to start) answers
+	// nothing instead of dereferencing nil.
+	h := n.HTTP
+	if h == nil {
+		return &hxResp{Code: 0, Body: "node is down"}
+	}
+	var rd io.Reader
+	if body != nil {
+		rd = bytes.NewReader(body)
+	}
+	req := httptest.NewRequest(method, "http://"+n.HTTPAddr+target, rd)
+	if ctype != "" {
+		req.Header.Set("Content-Type", ctype)
+	}
+	if user != "" || pass != "" {
+		req.SetBasicAuth(user, pass)
+	}
+	w := httptest.NewRecorder()
+	h.ServeHTTP(w, req)
 	r := &hxResp{Code: w.Code, Body: w.Body.String(), Loc: w.Header().Get("Location"), By: w.Header().Get("X-RQLITE-SERVED-BY")}
 	if strings.HasPrefix(strings.TrimSpace(r.Body), "{") {
 		var b hxBody
@@ -265,4 +288,31 @@ func hxExpvar(mapName, key string) int64 {
 		return 0
 	}
 	return v.Value()
+}
+
+// hxStrongRead runs one SELECT as a strong read on the settled leader (direct
+// Store call, harness-side ground truth). It re-settles and retries when the
+// read fails (leadership may still be moving after the last fault).
+func hxStrongRead(d *hxDriver, v *hxView, sql string) ([]*proto.Values, bool) {
+	for attempt := 0; attempt < 6; attempt++ {
+		ldr := hxSettle(d, v, 60*time.Second)
+		if ldr == nil {
+			continue
+		}
+		var out []*proto.Values
+		ok := false
+		d.do("strong-read", 30*time.Second, func() {
+			qr := &proto.QueryRequest{Level: proto.ConsistencyLevel_STRONG, Request: &proto.Request{Statements: []*proto.Statement{{Sql: sql}}}}
+			rows, _, _, err := ldr.Store.Query(context.Background(), qr)
+			if err != nil || len(rows) != 1 || rows[0].Error != "" {
+				return
+			}
+			out, ok = rows[0].Values, true
+		})
+		if ok {
+			return out, true
+		}
+		d.runFor(2 * time.Second)
+	}
+	return nil, false
 }
